@@ -243,6 +243,11 @@ hwloc_cpukinds_register(hwloc_topology_t topology, hwloc_cpuset_t _cpuset,
   hwloc_bitmap_t cpuset;
   int err;
 
+  if (topology->adopted_shmem_addr) {
+    errno = EPERM;
+    return -1;
+  }
+
   if (flags) {
     errno = EINVAL;
     return -1;
